@@ -18,7 +18,7 @@ import (
 var (
 	c06P     = new(big.Int).Exp(big.NewInt(10), big.NewInt(18), nil)
 	c06Max   = new(big.Int).Exp(big.NewInt(10), big.NewInt(40), nil) // amm.MaxCoinAmount
-	c06Lim   = new(big.Int).Lsh(big.NewInt(1), 255)                  // keep inside sdk.Int
+	c06Lim   = new(big.Int).Lsh(big.NewInt(1), 256)                  // keep inside sdk.Int (BitLen <= 256)
 	c06Two   = new(big.Int).Lsh(big.NewInt(1), 315)
 	c06One   = big.NewInt(1)
 	c06Zero  = big.NewInt(0)
@@ -49,7 +49,7 @@ func c06ceildiv(a, b *big.Int) *big.Int {
 	return q
 }
 
-// c06clamp keeps |v| below 2^255 so that sdkmath.NewIntFromBigInt accepts it.
+// c06clamp keeps |v| below 2^256 so that sdkmath.NewIntFromBigInt accepts it.
 func c06clamp(v *big.Int) *big.Int {
 	if new(big.Int).Abs(v).Cmp(c06Lim) >= 0 {
 		return c06sub(c06Lim, c06One)
